@@ -2,7 +2,7 @@
 """Sensitivity helper.  Never touches /repo: works on a scratch copy that is removed afterwards.
 
   tools/mut.py <ID> <repo-relative file> <old> <new> [-- extra check args...]
-  tools/mut.py <ID> --patch <file.diff> [-- extra check args...]
+  tools/mut.py <ID> --patch <file.diff> [--patch <more.diff>] [-- extra check args...]
 
 Copies /repo/TidalPy (without __pycache__) to /tmp/mut-<pid>/, applies the textual replacement (first
 occurrence; file may be .py or a generated .c, which the build step then recompiles inside the scratch
@@ -21,9 +21,13 @@ try:
     subprocess.run(['rsync', '-a', '--exclude', '__pycache__', '/repo/TidalPy', '/repo/cython_extensions.json',
                     '/repo/setup.py', scratch + '/'], check=True)
     if args[1] == '--patch':
-        r = subprocess.run(['patch', '-p1', '-f', '-d', scratch, '-i', os.path.abspath(args[2])], capture_output=True, text=True)
-        print(r.stdout.strip().splitlines()[-1] if r.stdout.strip() else r.stderr)
-        desc = 'patch ' + args[2]
+        patches = [args[i + 1] for i in range(1, len(args) - 1) if args[i] == '--patch']
+        for pf in patches:
+            r = subprocess.run(['patch', '-p1', '-f', '-d', scratch, '-i', os.path.abspath(pf)], capture_output=True, text=True)
+            print((r.stdout.strip().splitlines() or [r.stderr.strip()])[-1])
+            if r.returncode != 0:
+                print('WARNING: patch %s did not apply cleanly (files outside TidalPy/ are expected to be skipped)' % pf)
+        desc = 'patch ' + ' + '.join(patches)
     else:
         rel, old, new = args[1:4]
         path = os.path.join(scratch, rel)
